@@ -323,6 +323,33 @@ func registerProtoCodec(p *Program) {
 			return c.Invoke(m, meth, a[1:])
 		}
 	}
+	packAny := func(m *Machine, fn *ssa.Function, v Value) Value {
+		anyT := deref(fn.Signature.Results().At(0).Type())
+		st := m.zero(anyT).(Struct)
+		sty := under(anyT).(*types.Struct)
+		for i := 0; i < sty.NumFields(); i++ {
+			switch sty.Field(i).Name() {
+			case "cachedValue":
+				st[i] = v
+			case "TypeUrl":
+				if iv, ok := v.(Iface); ok && iv.t != nil {
+					st[i] = m.mkStr("/" + iv.t.String())
+				}
+			}
+		}
+		var cell Value = st
+		return &cell
+	}
+	I["github.com/cosmos/cosmos-sdk/codec/types.UnsafePackAny"] = func(m *Machine, fr *Frame, fn *ssa.Function, a []Value) Value {
+		return packAny(m, fn, a[0])
+	}
+	I["github.com/cosmos/cosmos-sdk/codec/types.NewAnyWithValue"] = func(m *Machine, fr *Frame, fn *ssa.Function, a []Value) Value {
+		iv := a[0].(Iface)
+		if iv.t == nil {
+			return Tuple{(*Value)(nil), m.errIface(&ErrObj{kind: "new", msg: "Expecting non nil value to create a new Any"})}
+		}
+		return Tuple{packAny(m, fn, iv), Iface{}}
+	}
 	// vp.Codec(): a codec object for harnesses that need the real-codec behaviour
 	I[vpPath+"Codec"] = func(m *Machine, fr *Frame, fn *ssa.Function, a []Value) Value {
 		return Iface{t: m.p.ntype("native.ProtoCodec"), v: &ProtoCodecObj{}}
